@@ -2,6 +2,15 @@
 from gen import gen_scalar
 from props._semprop import simple
 
+from common import prove
+
+MODULE = 'Proofs.Props.C01'
+THEOREMS = ['Facto.Circuit.settle', 'Facto.Circuit.settled_fixpoint', 'Facto.Circuit.settled_stable', 'Facto.Circuit.checkRanked_sound', 'Facto.Circuit.evalEnt_local', 'Facto.get_evalArith_scalar', 'Facto.get_evalDecider_single', 'Facto.rule_arith', 'Facto.rule_neg', 'Facto.rule_proj', 'Facto.rule_and_bool', 'Facto.rule_or_bool', 'Facto.rule_not', 'Facto.rule_cmp', 'Facto.rule_gate_copy', 'Facto.boolI_is_bool']
+
 
 def run(res, tier):
+    proved = prove(res, MODULE, THEOREMS)
     simple(res, tier, gen_scalar, 96, 1500, "seeded typed generator of stateless scalar DAG programs (gen.ScalarGen: all 11 arithmetic, 6 comparison, 3 logical operators, unary, projection, output specifier; tree / deep / shared-DAG profiles)")
+    if not proved:
+        res.violation({"reason": "a proof obligation of C01 no longer checks", "problems": res.proof_problems,
+                       "log": res.proof_log[-1500:], "obligation": MODULE}, failing_input=False)
